@@ -265,25 +265,28 @@ fn check_state(cx: &mut Ctx, h: &Hasher, c: usize, rep: &mut Report) -> V3 {
         }
         rep.inc("queries");
         rep.inc("spec_comparisons");
-        let mut buf = vec![0xC3u8; n + 32];
-        // the output region sits 16 bytes into the buffer, canaries on both sides
+        // the output region sits inside a larger buffer, wide canaries on both sides (an overrun of a
+        // few blocks must land in the canary, not in the allocator's metadata)
+        const PRE: usize = 256;
+        const POST: usize = 4096;
+        let mut buf = vec![0xC3u8; PRE + n + POST];
         unsafe {
             if seek == 0 && n % 2 == 0 {
-                blake3_hasher_finalize(h, buf.as_mut_ptr().add(16), n);
+                blake3_hasher_finalize(h, buf.as_mut_ptr().add(PRE), n);
             } else {
-                blake3_hasher_finalize_seek(h, seek, buf.as_mut_ptr().add(16), n);
+                blake3_hasher_finalize_seek(h, seek, buf.as_mut_ptr().add(PRE), n);
             }
         }
-        if buf[..16].iter().any(|b| *b != 0xC3) || buf[16 + n..].iter().any(|b| *b != 0xC3) {
+        if buf[..PRE].iter().any(|b| *b != 0xC3) || buf[PRE + n..].iter().any(|b| *b != 0xC3) {
             return Some(("finalize:writes-outside-out_len".into(), format!("exactly {} bytes written", n), "canary overwritten".into()));
         }
         let exp = node.root_bytes(seek, n);
-        if buf[16..16 + n] != exp[..] {
-            let at = buf[16..16 + n].iter().zip(exp.iter()).position(|(a, b)| a != b).unwrap_or(0);
+        if buf[PRE..PRE + n] != exp[..] {
+            let at = buf[PRE..PRE + n].iter().zip(exp.iter()).position(|(a, b)| a != b).unwrap_or(0);
             return Some((
                 "finalize_seek:mismatch".into(),
                 format!("S[{}..+{}] (first difference at +{}: {})", seek, n, at, vcommon::hex(&exp[at..(at + 8).min(n)])),
-                vcommon::hex(&buf[16 + at..16 + (at + 8).min(n)]),
+                vcommon::hex(&buf[PRE + at..PRE + (at + 8).min(n)]),
             ));
         }
         // finalize(out, n) and finalize_seek(0, out, n) agree
